@@ -274,10 +274,15 @@ func runC03(c *Ctx) {
 			c.R.Unk(rule, "ServerCode.Compressible", cfg, "", "anchor lost")
 			return
 		}
-		t := switchTable(cm, func(v ssa.Value) bool { return core.IsNamed(v.Type(), core.PkgProto, "ServerCode") })
+		// folded per constant, whatever the shape of the method (switch, if-chain, range test)
 		var got []string
 		for n, v := range codes {
-			if _, ok := t[v]; ok {
+			res, ok := core.FoldFunc(cm, nil, map[int]int64{0: v})
+			if !ok {
+				c.R.Unk(rule, "ServerCode.Compressible", cfg, p.Pos(cm.Pos()), "Compressible() does not fold for "+n)
+				return
+			}
+			if res != 0 {
 				got = append(got, n)
 			}
 		}
@@ -808,6 +813,8 @@ func runC03(c *Ctx) {
 	ruleVersionPassThrough(c, p, "C03.version-through")
 	ruleLimitSiblings(c, p, "C03.limits")
 	ruleExceptionChain(c, p, "C03.exception-chain")
+	ruleResetComplete(c, p, "C03.reset-clears")
+	ruleAdopt(c, p, "C03.adopt")
 	if rr := resolveDo(c, p); rr != nil {
 		ruleRetry(c, p, rr, "C03.retry")
 	}
@@ -897,6 +904,17 @@ func checkWiring(c *Ctx, p *core.Program, rule string, fn *ssa.Function, tname s
 				n++
 				got := core.FieldOrigin(s.Val, 0)
 				key := "literal/" + tname + "." + fname
+				// a value merged from two different fields (the caller's, or the connection's under some
+				// condition) is not "the caller's field"; a constant or computed default on the other edge is
+				if all := fieldOriginsAll(s.Val, 0); len(all) > 1 {
+					var names []string
+					for o := range all {
+						names = append(names, o)
+					}
+					sort.Strings(names)
+					c.R.Bad(rule, key, p.Cfg.Name, p.Pos(s.Pos()), sprintf("field %s is filled from a value merged from %s, expected %s alone", fname, strings.Join(names, " and "), exp))
+					continue
+				}
 				if got == exp || strings.HasSuffix(got, "."+strings.SplitN(exp, ".", 2)[1]) && got == exp {
 					c.R.Ok(rule, key, p.Cfg.Name, p.Pos(s.Pos()), fname+" <- "+got)
 				} else {
@@ -1093,6 +1111,23 @@ func ruleCompressibleArg(c *Ctx, p *core.Program, rule string) {
 			}, false)
 			if okC {
 				c.R.Ok(rule, key, cfg, p.Pos(call.Pos()), "Compressible <- code.Compressible()")
+				// a helper that is handed the packet code: every caller that passes a ServerCode is a decode site
+				for pi, prm := range fn.Params {
+					if !core.IsNamed(prm.Type(), core.PkgProto, "ServerCode") {
+						continue
+					}
+					for _, g := range p.Funcs() {
+						if pkgOf(g) == nil || pkgOf(g).Path() != core.PkgCh || g.Blocks == nil {
+							continue
+						}
+						for _, hc := range core.Calls(g) {
+							if core.StaticFn(hc) == fn && pi < len(hc.Common().Args) {
+								n++
+								c.R.Ok(rule, core.CallKey(g, hc), cfg, p.Pos(hc.Pos()), "decodes through "+fn.Name()+", which takes Compressible from the code it is handed")
+							}
+						}
+					}
+				}
 			} else {
 				c.R.Bad(rule, key, cfg, p.Pos(call.Pos()), "this block decode does not pass code.Compressible(): on a connection with compression the packet's compressed frame is parsed as a plain block")
 			}
@@ -1220,4 +1255,39 @@ func ruleRowwise(c *Ctx, p *core.Program, rule string) {
 		}
 	}
 	c.R.Floor(rule, cfg, n, 10)
+}
+
+// fieldOriginsAll is FieldOrigin over every edge of the phis v is merged from:
+// the set of distinct struct fields the value can come from.
+func fieldOriginsAll(v ssa.Value, depth int) map[string]bool {
+	out := map[string]bool{}
+	if depth > 6 {
+		return out
+	}
+	switch x := v.(type) {
+	case *ssa.Phi:
+		for _, e := range x.Edges {
+			for o := range fieldOriginsAll(e, depth+1) {
+				out[o] = true
+			}
+		}
+		return out
+	case *ssa.UnOp:
+		if x.Op == token.MUL {
+			if al, ok := x.X.(*ssa.Alloc); ok {
+				for _, r := range *al.Referrers() {
+					if st, ok := r.(*ssa.Store); ok && st.Addr == ssa.Value(al) {
+						for o := range fieldOriginsAll(st.Val, depth+1) {
+							out[o] = true
+						}
+					}
+				}
+				return out
+			}
+		}
+	}
+	if o := core.FieldOrigin(v, 0); o != "" {
+		out[o] = true
+	}
+	return out
 }
